@@ -633,6 +633,9 @@ func (o *cntObj) writeAt(p []byte, off int64) (int, error) {
 	o.Writes++
 	h := sha256.Sum256(p)
 	o.fs.logf("WriteAt #%d %s off=%d len=%d sha=%x closed=%d", o.ID, o.Kind, off, len(p), h[:4], o.Closed)
+	if off < 0 || off > 1<<20 { // in-memory files are not sparse: refuse absurd offsets instead of allocating them
+		return 0, syscall.EFBIG
+	}
 	if need := int(off) + len(p); need > len(o.node.data) {
 		d := make([]byte, need)
 		copy(d, o.node.data)
